@@ -203,6 +203,9 @@ func (w *World) carrierUp(svc tunnelpb.TunnelServiceServer) tunnelpb.TunnelServi
 	return tunnelpb.NewTunnelServiceClient(w.Conn)
 }
 
+// onNewWorld lets the worker remember the world of the running case (watchdog diagnostics).
+var onNewWorld func(*World)
+
 // NewWorld creates the carrier, handler and service registrations; tunnels are
 // opened by Open().
 func NewWorld(t *testing.T, cfg WorldCfg) *World {
@@ -225,6 +228,9 @@ func NewWorld(t *testing.T, cfg WorldCfg) *World {
 		},
 	}, w.Tap)
 	w.RootCtx, w.RootCancel = context.WithCancel(context.Background())
+	if onNewWorld != nil {
+		onNewWorld(w)
+	}
 	return w
 }
 
